@@ -100,7 +100,7 @@ Section Oracles.
 End Oracles.
 
 (* ----- oracles given as finite tables (how the extracted model is run: R = id, lg/pw = recorded libm values) ----- *)
-Definition rid (x : Q) : Q := x.
+Definition rid (x : Q) : Q := Qred x.
 
 Fixpoint tab1 (t : list (Q * Q)) (x : Q) : Q :=
   match t with
